@@ -13,6 +13,8 @@ package main
 // Discarded transactions/bulks and units without any put/delete leave nothing. Reads go to the wrapped store.
 
 import (
+	"os"
+	"path/filepath"
 	"sort"
 
 	"github.com/aergoio/aergo-lib/db"
@@ -145,8 +147,13 @@ func applyUnit(m map[string][]byte, e jevent, upto int) {
 }
 
 // materialise builds a fresh in-memory store (never written to a file) with the given content.
-func materialise(m map[string][]byte) db.DB {
-	d := db.NewDB(db.MemoryImpl, "/nonexistent-verif-c16")
+func materialise(m map[string][]byte) db.DB { return materialiseIn("/nonexistent-verif-c16", m) }
+
+// materialiseIn: the same, as the store of directory dir (Close writes it there; a file left by an
+// earlier store of that directory is removed first).
+func materialiseIn(dir string, m map[string][]byte) db.DB {
+	os.Remove(filepath.Join(dir, "database"))
+	d := db.NewDB(db.MemoryImpl, dir)
 	keys := make([]string, 0, len(m))
 	for k := range m {
 		keys = append(keys, k)
